@@ -55,6 +55,12 @@ def jobs_for(prop, tier, seed):
                              id=f'{prop}-{fmt}-{shape}-{"ow" if ow else "first"}-fsspec-serial-op{k}',
                              plan={'mode': 'record'}, expand=kind, limit=None))
     if prop == 'C13':
+        # kills just before every filesystem mutation (also those inside library calls), both directory listing orders
+        for fmt, ow, order in itertools.product(cfg['fmts'], (False, True), ('asc', 'desc')):
+            for prov in cfg['providers']:
+                jobs.append(dict(fmt=fmt, shape='small', overwrite=ow, provider=prov, backend='fork', seed=0,
+                                 id=f'{prop}-{fmt}-small-{"ow" if ow else "first"}-{prov}-fork-audit-{order}',
+                                 plan={'mode': 'audit-record', 'order': order}, expand=kind, limit=None))
         for k in range(cfg.get('spawn_jobs', 0)):
             jobs.append(dict(fmt='pickle', shape='small', overwrite=bool(k % 2), provider='local', backend='spawn',
                              seed=k, id=f'{prop}-pickle-small-spawn{k}-op', plan={'mode': 'record'}, expand=kind, limit=6))
